@@ -74,6 +74,7 @@ type vfC04HostOut struct {
 	Op         string
 	Err        string
 	Deadlock   string
+	Hung       string
 	Leaked     []string
 }
 
@@ -410,15 +411,16 @@ func vfC04HostScenario(t *testing.T, plan vfC04HostPlan, tr *vfh.Trace, out *vfC
 	audit(true, len(out.Leaked))
 }
 
-func vfC04HostRun(t *testing.T, plan vfC04HostPlan, tr *vfh.Trace) (out vfC04HostOut) {
-	defer func() {
-		if r := recover(); r != nil {
-			out.Deadlock = fmt.Sprint(r)
-			tr.Emit("deadlock", "msg", out.Deadlock)
-		}
-	}()
-	synctest.Test(t, func(t *testing.T) { vfC04HostScenario(t, plan, tr, &out) })
-	return out
+func vfC04HostRun(t *testing.T, plan vfC04HostPlan, tr *vfh.Trace) vfC04HostOut {
+	out := &vfC04HostOut{}
+	dl, hung := vfc04.RunBubble(t, 40*time.Second, func(t *testing.T) { vfC04HostScenario(t, plan, tr, out) })
+	if dl != "" {
+		out.Deadlock = dl
+		tr.Emit("deadlock", "msg", dl)
+	}
+	o := *out
+	o.Hung = hung
+	return o
 }
 
 func TestVerifC04Host(t *testing.T) {
@@ -456,17 +458,20 @@ func TestVerifC04Host(t *testing.T) {
 		}
 		if path != "" {
 			if err := tr.AppendTo(path, map[string]any{"family": "host", "cfg": "noise/early/nopsk", "plan": plan.String(), "kind": plan.Kind,
-				"side": plan.Side, "k": plan.K, "hit": out.Hit, "stage": "newstream", "p": plan}); err != nil {
+				"side": plan.Side, "k": plan.K, "hit": out.Hit, "stage": "newstream", "p": plan, "hang": out.Hung}); err != nil {
 				t.Fatal(err)
 			}
 		}
-		if out.Deadlock != "" || len(out.Leaked) > 0 {
-			res.Sample(map[string]any{"plan": plan.String(), "deadlock": out.Deadlock, "leaked": out.Leaked})
+		if out.Deadlock != "" || len(out.Leaked) > 0 || out.Hung != "" {
+			res.Sample(map[string]any{"plan": plan.String(), "deadlock": out.Deadlock, "leaked": out.Leaked, "hung": out.Hung})
+		}
+		if out.Hung != "" {
+			res.Inc("hangs", 1)
 		}
 		return out
 	}
 	dry := run(vfC04HostPlan{Kind: "none"})
-	if dry.Err != "" || dry.OpsA == 0 || dry.Deadlock != "" {
+	if dry.Err != "" || dry.OpsA == 0 || dry.Deadlock != "" || dry.Hung != "" {
 		t.Fatalf("host dry run failed: %+v", dry)
 	}
 	res.Set("ops/host", []int{dry.OpsA, dry.OpsB})
